@@ -298,6 +298,13 @@ def render_node(n, scopes, env, pbstack):
                     return render_node(node, scopes, env, pbstack)
         if n.get("else") is not None:
             return render(n["else"], scopes, env, pbstack)
+        # no final else: the LAST link is a helper without an else branch (every earlier link has the next link as its
+        # else branch) – `with` on a falsy value and `each` on a value that is not a collection fail in strict mode
+        if env.strict and n["links"]:
+            kind, arg, body, extra = n["links"][-1]
+            v = eval_arg(arg, scopes, env)
+            if kind == "with" or (kind == "each" and not isinstance(v, (list, dict))):
+                raise SpecError(["MissingVariable"])
         return ""
     if t == "partial":
         name = n["name"]
